@@ -248,8 +248,12 @@ func runGcLive(tr *hx.Trace, srv *fakeredis.Server, seed uint64, n, shard, shard
 			st.dataDbs = append(st.dataDbs, d)
 		}
 		// what the source reports: the checkpoint's id as current id, as previous id (fail-over not yet re-keyed), or not at all
-		report := []string{"current", "previous", "gone"}[r.Intn(3)]
+		// ... or ("raced") as current id to the collector, although the source has just failed over and a start of the link has
+		// moved the position to the new id: the collector's list of live ids is older than what it then reads on the target
+		report := []string{"current", "previous", "gone", "raced"}[r.Intn(4)]
 		switch report {
+		case "raced":
+			fs.id1, fs.id2 = idOld, strings.Repeat("0", 40)
 		case "current":
 			fs.id1, fs.id2 = idOld, strings.Repeat("0", 40)
 		case "previous":
@@ -261,6 +265,13 @@ func runGcLive(tr *hx.Trace, srv *fakeredis.Server, seed uint64, n, shard, shard
 		gc.Channel.StaleCheckpointDuration = time.Duration(st.staleMs) * time.Millisecond
 		seedState(srv, st)
 		before := readResume(srv, []string{idOld})
+		if report == "raced" {
+			cliM := connect(srv)
+			if err := checkpoint.UpdateCheckpoint(cliM, cpA, []string{idNew, idOld}); err != nil {
+				hx.Fatal("raced move: %v", err)
+			}
+			cliM.Close()
+		}
 		reqBase := srv.RecvCount()
 		sc.VerifGcStaleCheckpoint(context.Background())
 		gcReqs := srv.RecvCount() - reqBase
@@ -274,6 +285,9 @@ func runGcLive(tr *hx.Trace, srv *fakeredis.Server, seed uint64, n, shard, shard
 		ids := []string{fs.id1}
 		if fs.id2 != strings.Repeat("0", 40) {
 			ids = append(ids, fs.id2)
+		}
+		if report == "raced" {
+			ids = []string{idNew, idOld}
 		}
 		if report != "gone" {
 			cli2 := connect(srv)
